@@ -288,7 +288,10 @@ def check_quoted_tokens(repo, rep):
             dec = [c for c in calls if isinstance(c.func, ast.Name) and
                    c.func.id == 'decode_escapes']
             ok = len(dec) == 1 and dec[0].args and isinstance(
-                dec[0].args[0], ast.Subscript)
+                norm.subst_locals(
+                    model.enclosing(dec[0], (ast.FunctionDef,
+                                             ast.AsyncFunctionDef)),
+                    dec[0].args[0], only_pure=False), ast.Subscript)
             rep.ob('R16c', fi.key + '/decodes-escapes', ok,
                    'the action must pass the stripped text through '
                    'decode_escapes', loc=mod.loc(fi.node))
